@@ -81,6 +81,14 @@ def check_name_value(j1939, v):
     return None
 
 
+def guarded(fn, *a):
+    """the codecs are total on their domain: an exception for a value of the domain is a failing input, not a harness error"""
+    try:
+        return fn(*a)
+    except Exception as e:            # noqa
+        return f"{fn.__name__}{a[1:]} raised {type(e).__name__}: {e}"
+
+
 def oracle(ctx, full):
     j1939 = j()
     rng = random.Random(ctx.seed * 7919 + 15)
@@ -94,7 +102,7 @@ def oracle(ctx, full):
     for c in id_cases(rng, 20000 if big else 2000):
         evals += 1
         distinct.add(('id', c))
-        r = check_id(j1939, c)
+        r = guarded(check_id, j1939, c)
         if r:
             add('id', r, dict(can_id=c))
             break
@@ -104,7 +112,7 @@ def oracle(ctx, full):
     for t in pgns:
         evals += 1
         distinct.add(('pgn',) + t)
-        r = check_pgn(j1939, *t)
+        r = guarded(check_pgn, j1939, *t)
         if r:
             add('pgn', r, dict(pgn=t))
             break
@@ -115,7 +123,7 @@ def oracle(ctx, full):
     for v in vals:
         evals += 1
         distinct.add(('name', v))
-        r = check_name_value(j1939, v)
+        r = guarded(check_name_value, j1939, v)
         if r:
             add('name', r, dict(value=v))
             break
